@@ -7,6 +7,8 @@ GROUPS = [
     dict(name="hmm_vit_eval_3st_lr", harness=H, enforce="hmm_vit_eval_3st_lr", min_postconditions=15, replay=R3, allow_no_body=NB),
     dict(name="hmm_vit_eval_dispatch", harness=H, entry="h_hmm_vit_eval", enforce="hmm_vit_eval", replace=["hmm_vit_eval_3st_lr", "hmm_vit_eval_3st_lr_mpx", "hmm_vit_eval_5st_lr", "hmm_vit_eval_5st_lr_mpx", "hmm_vit_eval_anytopo"], min_postconditions=6, timeout=150, allow_no_body=["*"]),
     dict(name="hmm_vit_eval_dispatch_mpx", harness=H, entry="h_hmm_vit_eval", defines=["VERIF_HVE_MPX"], enforce="hmm_vit_eval", replace=["hmm_vit_eval_3st_lr", "hmm_vit_eval_3st_lr_mpx", "hmm_vit_eval_5st_lr", "hmm_vit_eval_5st_lr_mpx", "hmm_vit_eval_anytopo"], min_postconditions=6, timeout=150, allow_no_body=["*"]),
+    dict(name="hmm_clear", harness=H, enforce="hmm_clear", min_postconditions=2, allow_no_body=NB, unwind=7),
+    dict(name="hmm_normalize", harness=H, enforce="hmm_normalize", min_postconditions=2, allow_no_body=NB, unwind=7),
     dict(name="hmm_enter", harness=H, enforce="hmm_enter", min_postconditions=1, allow_no_body=NB),
     dict(name="hmm_vit_eval_3st_lr_mpx", harness=H, enforce="hmm_vit_eval_3st_lr_mpx", min_postconditions=12, allow_no_body=NB),
     dict(name="history_entry_add", harness="harness/C02_history.c", entry="r_history_entry_add", allow_no_body=["*"], unwind=6, extra_sources=["@src/glist.c"],
@@ -35,6 +37,6 @@ ASSUMPTIONS = [
 HAND_LEMMAS = ["global optimality over all alignments is the standard Viterbi induction over frames from the local max-plus step; not machine checked"]
 NOT_COVERED = ["global optimum over all alignments", "lextree / triphone construction as contracts (fsg_lextree.c, dict2pid.c): the triphone of every node is checked on ~43 real lextrees by the bounded native run lextree_triphone_enum only", "5-state and any-topology evaluators", "the global optimum over whole sentences (lextree construction, word transitions, cross-word triphones) is NOT under contract; it is exercised only by the bounded native metamorphic run viterbi_union_enum (union of two sentences scores the maximum of its parts) -- never counted as proved"]
 CLAIM = dict(
-    text="Each Viterbi step of the 3-state HMM evaluators (hmm_vit_eval_3st_lr and its multiplex variant) is proved, for ALL int32 score vectors satisfying the HMM invariant, all senone scores and all transition bytes, to be the exact clamped max-plus step over the legal arcs: every state's new score is the maximum of its predecessors' score minus senone score minus arc cost, each weight used once, back-pointers follow an arg-max predecessor, the best score is the maximum, nothing wraps. The dispatcher hmm_vit_eval is proved to reach exactly one of these two steps for 3-state HMMs, and hmm_enter to set exactly the entry score, back-pointer and frame. The search transitions that move scores between HMMs are under contract in the C01 check (same run.py groups: fsg_search_pnode_trans / word_trans / pnode_exit / hmm_prune_prop: source score plus the target's arc weight exactly once, exit score handed to the history unchanged). The history pruning rule (fsg_history_entry_add) is checked on lists of <= 2 entries with symbolic 128-bit right-context sets: for every right context the best score on offer is kept (bounded). Global optimality of the search is NOT decided (local steps only).",
+    text="Each Viterbi step of the 3-state HMM evaluators (hmm_vit_eval_3st_lr and its multiplex variant) is proved, for ALL int32 score vectors satisfying the HMM invariant, all senone scores and all transition bytes, to be the exact clamped max-plus step over the legal arcs: every state's new score is the maximum of its predecessors' score minus senone score minus arc cost, each weight used once, back-pointers follow an arg-max predecessor, the best score is the maximum, nothing wraps. The dispatcher hmm_vit_eval is proved to reach exactly one of these two steps for 3-state HMMs, hmm_enter to set exactly the entry score, back-pointer and frame, hmm_clear to leave every score inactive and every back-pointer slot -1, and hmm_normalize to shift active scores by exactly the normaliser without wrapping. The search transitions that move scores between HMMs are under contract in the C01 check (same run.py groups: fsg_search_pnode_trans / word_trans / pnode_exit / hmm_prune_prop: source score plus the target's arc weight exactly once, exit score handed to the history unchanged). The history pruning rule (fsg_history_entry_add) is checked on lists of <= 2 entries with symbolic 128-bit right-context sets: for every right context the best score on offer is kept (bounded). Global optimality of the search is NOT decided (local steps only).",
     note="local optimality steps only; preconditions WF_HMM; search transitions, history pruning, lextree and the global maximum are not covered; trusted: CBMC 6.11",
     technique="CBMC function contract enforced with goto-instrument --dfcc, loop-free code over the full input domain; counterexamples replayed natively through a constructive harness; bounded native metamorphic run (optimum of a union grammar = maximum over its parts, pruning off) as safety net for the global clause")
